@@ -120,6 +120,37 @@ def batch_job(isos):
         return {"isos": list(isos), "error": repr(e)[:200]}
 
 
+# ------------------------------------------------------------------ deviation histories: anything remembered per country but depending on an option
+DEV_PRESET, DEV_NMONTHS = "ms_example_resilient", 72
+
+
+def dev_menu():
+    base = options.clean(options.preset(DEV_PRESET))
+    base["NMONTHS"] = DEV_NMONTHS
+    out = []
+    for tag, o in options.single_deviations(base):
+        o = options.clean(o)
+        diff = {k: v for k, v in o.items() if base.get(k) != v}
+        if diff:
+            out.append((tag, diff))
+    return out
+
+
+def dev_history_job(job):
+    """one fresh process: [the country under `first` options, then the same country under `second` options]; digest of the second run"""
+    iso, first, second = job
+    common.sandbox()
+    out = {"iso3": iso, "first": first, "second": second}
+    try:
+        if first is not None:
+            one_run(iso, DEV_PRESET, DEV_NMONTHS, "c14d_%d_a" % os.getpid(), first[1])
+        dg, parts, unmodified, conv = one_run(iso, DEV_PRESET, DEV_NMONTHS, "c14d_%d_b" % os.getpid(), second[1] if second else None)
+        out.update(digest=dg, parts=parts)
+    except BaseException as e:
+        out["error"] = repr(e)[:200]
+    return out
+
+
 def alone_subprocess(idx, hashseed):
     env = {k: v for k, v in os.environ.items() if k != "VERIF_SCRATCH_BASE"}
     env["PYTHONHASHSEED"] = str(hashseed)
@@ -198,13 +229,45 @@ def run(tier, seed):
                 diff = sorted(k for k in set(run["parts"]) | set(base["parts"]) if run["parts"].get(k) != base["parts"].get(k))
                 vs.append(violation("result_independent_of_history", dict(key, run=key["run"] + " " + iso), "%s inside the multi-country call %s differs from the single-country call in: %s (headline %s vs %s)" % (
                     iso, r["isos"], diff[:6], run["parts"].get("headline"), base["parts"].get("headline")), rp))
-    cov = {"executions": len(seqs) + len(alone) + len(subsets), "states": max(1, len(states)), "transitions": n_runs,
-           "traces_validated_against_impl": len(seqs) + len(alone) + len(subsets),
+    # deviation histories: the base run after the same country was run with ONE option family changed must equal the base run alone
+    # (thorough: also every deviation run after the base run must equal that deviation run alone)
+    menu = dev_menu()
+    dev_isos = ("IND",) if tier == "quick" else ("IND", "VNM", "USA")
+    djobs = []
+    for iso in dev_isos:
+        djobs.append((iso, None, None))
+        for dv in menu:
+            djobs.append((iso, dv, None))
+            if tier != "quick":
+                djobs.append((iso, None, dv))
+                djobs.append((iso, ("base", {}), dv))
+    dres = common.pmap(dev_history_job, djobs, fresh_process_per_job=True)
+    alone_d = {(r["iso3"], r["second"][0] if r["second"] else None): r for r in dres if r["first"] is None}
+    for r in dres:
+        if r["first"] is None:
+            continue
+        n_runs += 2
+        base = alone_d.get((r["iso3"], r["second"][0] if r["second"] else None), {})
+        what = "%s/%s/%d%s" % (r["iso3"], DEV_PRESET, DEV_NMONTHS, ("+" + r["second"][0]) if r["second"] else "")
+        key = {"run": what, "history": "%s with %s" % (r["iso3"], r["first"][0])}
+        rp = {"dev_history": [r["iso3"], r["first"], r["second"]]}
+        if "error" in r:
+            if "error" not in base:
+                vs.append(violation("run_fails_after_history", key, "%s fails after the same country was run with %s: %s" % (what, r["first"][0], r["error"]), rp))
+        elif "digest" in base and r["digest"] != base["digest"]:
+            diff = sorted(k for k in set(r["parts"]) | set(base["parts"]) if r["parts"].get(k) != base["parts"].get(k))
+            vs.append(violation("result_independent_of_history", key, "%s after the same country was run with %s differs from the run alone in: %s (headline %s vs %s)" % (
+                what, r["first"][0], diff[:6], r["parts"].get("headline"), base["parts"].get("headline")), rp))
+    cov = {"executions": len(seqs) + len(alone) + len(subsets) + len(djobs), "states": max(1, len(states)), "transitions": n_runs,
+           "traces_validated_against_impl": len(seqs) + len(alone) + len(subsets) + len(djobs),
+           "deviation_histories": len(djobs),
            "batches": len(subsets), "batch_results_compared_with_single_calls": compared,
            "distinct_outcomes": len({run.get("digest") for r in res for run in r["runs"]}),
            "runs": n_runs, "histories": len(seqs),
            "bound": {"depth": "every ordered sequence of length <= %d over the pool (repeats allowed), one fresh process each" % d,
                      "pool": [label_of(p) for p in POOL], "alone": "every pool run alone under PYTHONHASHSEED in %s" % (list(hashseeds),),
+                     "deviation_histories": "for %s: the %s/%d run after the same country was run with each of the %d single-family deviations (thorough: and each deviation run after the base run), one fresh process each" % (
+                         list(dev_isos), DEV_PRESET, DEV_NMONTHS, len(menu)),
                      "batches": "every subset of size <= %d of %s in one multi-country call sharing one option dictionary (%s, %d months), each in a fresh process" % (
                          kmax, BATCH, BATCH_PRESET, BATCH_NMONTHS)},
            "alphabet": "a state is the fingerprint of the process-global settings (Food.conversions) after a run; a transition is one run appended to a history",
@@ -214,6 +277,16 @@ def run(tier, seed):
 
 
 def replay(rp):
+    if "dev_history" in rp:
+        iso, first, second = rp["dev_history"]
+        first = tuple(first) if first else None
+        second = tuple(second) if second else None
+        r = common.pmap(dev_history_job, [(iso, first, second), (iso, None, second)], fresh_process_per_job=True)
+        if "error" in r[0] and "error" not in r[1]:
+            return [violation("run_fails_after_history", {"run": iso}, r[0]["error"], rp)]
+        if r[0].get("digest") != r[1].get("digest"):
+            return [violation("result_independent_of_history", {"run": iso}, "differs: %s vs %s" % (r[0].get("parts", {}).get("headline"), r[1].get("parts", {}).get("headline")), rp)]
+        return []
     if "batch" in rp:
         r = common.pmap(batch_job, [tuple(rp["batch"])] + [(i,) for i in rp["batch"]], fresh_process_per_job=True)
         vs = []
